@@ -12,6 +12,8 @@ import (
 	"context"
 	"errors"
 	"fmt"
+	"io"
+	"net"
 	"runtime"
 	"strconv"
 	"strings"
@@ -19,6 +21,8 @@ import (
 	"sync/atomic"
 	"testing"
 	"time"
+
+	"github.com/alicebob/miniredis/v2"
 
 	"tunnox-core/internal/core/idgen"
 	"tunnox-core/internal/core/node"
@@ -123,13 +127,77 @@ type contendResult struct {
 }
 
 func buildStore(ctx context.Context, which string) (storage.Storage, error) {
-	if which == "memory" {
+	switch which {
+	case "memory":
 		return storage.NewMemoryStorage(ctx), nil
+	case "redis", "hybrid(memory+redis)":
+		// the Redis backend: miniredis behind a proxy that delays every request like a network
+		// hop, so that calls of several generators on the ONE RedisStorage object overlap
+		mr, err := miniredis.Run()
+		if err != nil {
+			return nil, err
+		}
+		addr, err := slowProxy(ctx, mr.Addr(), 2*time.Millisecond)
+		if err != nil {
+			mr.Close()
+			return nil, err
+		}
+		go func() { <-ctx.Done(); mr.Close() }()
+		rc := &storage.RedisConfig{Addr: addr, PoolSize: 32}
+		if which == "redis" {
+			return storage.NewRedisStorage(ctx, rc)
+		}
+		f := storage.NewStorageFactory(ctx)
+		hc := &storage.HybridStorageConfig{CacheType: "memory", EnablePersistent: false, HybridConfig: storage.DefaultHybridConfig(), SharedCacheConfig: rc}
+		hc.HybridConfig.EnablePersistent = false
+		return f.CreateStorage(hc)
 	}
 	f := storage.NewStorageFactory(ctx)
 	hc := &storage.HybridStorageConfig{CacheType: "memory", EnablePersistent: false, HybridConfig: storage.DefaultHybridConfig()}
 	hc.HybridConfig.EnablePersistent = false
 	return f.CreateStorage(hc)
+}
+
+// slowProxy forwards TCP to target and delays every client->server chunk (closed with ctx).
+func slowProxy(ctx context.Context, target string, delay time.Duration) (string, error) {
+	ln, err := net.Listen("tcp", "127.0.0.1:0")
+	if err != nil {
+		return "", err
+	}
+	go func() { <-ctx.Done(); ln.Close() }()
+	go func() {
+		for {
+			c, err := ln.Accept()
+			if err != nil {
+				return
+			}
+			go func(c net.Conn) {
+				s, err := net.Dial("tcp", target)
+				if err != nil {
+					c.Close()
+					return
+				}
+				go func() { <-ctx.Done(); c.Close(); s.Close() }()
+				go func() { io.Copy(c, s); c.Close() }()
+				buf := make([]byte, 64*1024)
+				for {
+					n, err := c.Read(buf)
+					if n > 0 {
+						time.Sleep(delay)
+						if _, werr := s.Write(buf[:n]); werr != nil {
+							break
+						}
+					}
+					if err != nil {
+						break
+					}
+				}
+				s.Close()
+				c.Close()
+			}(c)
+		}
+	}()
+	return ln.Addr().String(), nil
 }
 
 // spinBarrier releases n goroutines as close to simultaneously as user space allows.
@@ -414,6 +482,14 @@ func TestContention(t *testing.T) {
 			ContendCase{Mode: "contend-nodealloc", Store: store, G: 4, Taken: 3},
 		)
 	}
+	// the Redis backend (every operation is a delayed network round trip: few rounds, each
+	// with all callers in flight together)
+	for _, store := range []string{"redis", "hybrid(memory+redis)"} {
+		for ki, kind := range idKinds {
+			cases = append(cases, ContendCase{Mode: "contend-idgen", Store: store, Kind: kind, K: 4 + ki%2, G: 4, Taken: ki % 2})
+		}
+		cases = append(cases, ContendCase{Mode: "contend-nodealloc", Store: store, G: 4})
+	}
 	perCase := vkit.Pick(2500, 40000)
 	for i, c := range cases {
 		if !vkit.Mine(i) {
@@ -428,6 +504,9 @@ func TestContention(t *testing.T) {
 		}
 		if c.Sweep {
 			c.Rounds = perCase / 5 // every round scans the filler keys several times
+		}
+		if strings.Contains(c.Store, "redis") {
+			c.Rounds = vkit.Pick(60, 1500)
 		}
 		r := runContend(c)
 		reportContend(t, c, r)
